@@ -2,7 +2,7 @@
 # re-run the quick check of every seeded change's own property against that change (in one scratch worktree)
 # usage: tools/redetect.sh [ids...]   -> .build/logs/redetect.log
 cd "$(dirname "$0")/.."
-WT=/tmp/sirc-redetect
+WT=/tmp/sirc-redetect-$$
 git -C /repo worktree remove --force $WT 2>/dev/null; rm -rf $WT
 git -C /repo worktree add --detach $WT -q || exit 2
 cp /repo/Cargo.lock $WT/ 2>/dev/null
